@@ -30,22 +30,30 @@ def main():
         if pid not in props.PROPS:
             continue
         p = props.PROPS[pid]
+        jobs = p.jobs("quick", 0)
+        has_k = any(isinstance(j, props.Job) for j in jobs)
+        has_x = any(isinstance(j, props.codecx.CodecJob) for j in jobs)
+        default_tech = "bounded model checking of the compiled Rust code (Kani/CBMC/SAT)"
+        if has_x and has_k:
+            default_tech += "; symbolic execution of rustc MIR with symbolic bytes and SMT queries (z3 + cvc5) for the jobs marked [mirx]"
+        engine = getattr(p, "engine", None) or ("+".join(x for x, on in (("kani-cbmc", has_k), ("mir-symbolic-execution-smt", has_x or not has_k)) if on))
+        design_ref = "DESIGN.md section A.1 (as built)" + (", B.5/B.6 (Engine X)" if has_x else "") + ", original plan in section 4." + pid
         checks.append({
             "property_id": pid,
             "quick_cmd": "./check %s --tier quick" % pid,
             "thorough_cmd": "./check %s --tier thorough" % pid,
             "evidence_file": "/verif/evidence/%s.json" % pid,
             "replay_cmd_template": "./check %s --replay {path}" % pid,
-            "engine": getattr(p, "engine", "kani-cbmc"),
+            "engine": engine,
             "level_claimed": {
                 "category": "model_checking",
                 "text": ("Bounded, solver-decided: holds for EVERY value within the stated bounds (%s), nothing is claimed outside them. "
                          "Counterexamples are replayed natively against /repo before being reported." % p.bounds("quick")),
-                "design_ref": "DESIGN.md section 4." + pid,
+                "design_ref": design_ref,
             },
             "level_note": ("Assumes: " + "; ".join(p.assumptions) + ". Trusted base: " + "; ".join(p.trusted)
                            + ". Outside the claim: " + "; ".join(p.outside)),
-            "technique": TECH.get(pid, getattr(p, "technique", "bounded model checking of the compiled Rust code (Kani/CBMC/SAT)")),
+            "technique": TECH.get(pid, getattr(p, "technique", default_tech)),
         })
     na = []
     for pid in all_ids:
